@@ -22,6 +22,10 @@ pub mod alloc_count {
     use std::sync::atomic::{AtomicUsize, Ordering};
 
     pub static LIVE: AtomicUsize = AtomicUsize::new(0);
+    /// When non-zero, every fresh allocation (and the grown part of a reallocation)
+    /// is filled with this byte: results that depend on the contents of fresh heap
+    /// memory then depend on the byte.
+    pub static FILL: std::sync::atomic::AtomicU8 = std::sync::atomic::AtomicU8::new(0);
     pub static PEAK: AtomicUsize = AtomicUsize::new(0);
 
     pub struct Counting;
@@ -30,6 +34,10 @@ pub mod alloc_count {
         unsafe fn alloc(&self, layout: Layout) -> *mut u8 {
             let p = System.alloc(layout);
             if !p.is_null() {
+                let fill = FILL.load(Ordering::Relaxed);
+                if fill != 0 {
+                    std::ptr::write_bytes(p, fill, layout.size());
+                }
                 let live = LIVE.fetch_add(layout.size(), Ordering::Relaxed) + layout.size();
                 PEAK.fetch_max(live, Ordering::Relaxed);
             }
@@ -42,6 +50,10 @@ pub mod alloc_count {
         unsafe fn realloc(&self, ptr: *mut u8, layout: Layout, new_size: usize) -> *mut u8 {
             let p = System.realloc(ptr, layout, new_size);
             if !p.is_null() {
+                let fill = FILL.load(Ordering::Relaxed);
+                if fill != 0 && new_size > layout.size() {
+                    std::ptr::write_bytes(p.add(layout.size()), fill, new_size - layout.size());
+                }
                 if new_size >= layout.size() {
                     let live = LIVE.fetch_add(new_size - layout.size(), Ordering::Relaxed) + (new_size - layout.size());
                     PEAK.fetch_max(live, Ordering::Relaxed);
@@ -106,6 +118,11 @@ fn doc_bytes(a: Fmt, i: usize, doc_size: usize, variant: usize) -> Vec<u8> {
     // variants 4 and 5: the smallest documents there are (10-16 bytes: several fit
     // into any look-ahead an implementation might take), and for YAML variant 5
     // documents whose last byte is not ASCII (the line break belongs to the next one)
+    // variant 6 (YAML): the stream starts with a UTF-8 byte order mark (first
+    // document a marker-less flow sequence: libyaml takes "BOM ---" for a scalar)
+    if variant == 6 && a == Fmt::Yaml {
+        return format!("{}[item{}, k{}]\n", if i == 0 { "\u{feff}" } else { "---\n" }, id, pad.len() % 7).into_bytes();
+    }
     if variant >= 4 {
         return match a {
             // (one-element sequences: detection only recognises collections)
@@ -309,8 +326,11 @@ pub fn run_stream(spec: &StreamSpec, variant: usize) -> Result<StreamResult, Str
 }
 
 pub fn check_stream(spec: &StreamSpec, rec: &mut Recorder) -> Result<(), String> {
-    let variant = spec.n % 6;
+    let variant = spec.n % 7;
     let r = run_stream(spec, variant)?;
+    if spec.a == Fmt::Yaml && variant == 6 {
+        rec.class("yaml_stream_with_utf8_bom");
+    }
     if variant >= 4 {
         rec.class("tiny_documents");
     }
@@ -414,7 +434,7 @@ impl Check for C05 {
         vec![Unit::gen("streams", 16, tier.pick(40, 300)), Unit::enumerate("growth", 9)]
     }
     fn required_classes(&self, _tier: Tier) -> Vec<&'static str> {
-        vec!["memory_bound_checked", "detected", "explicit", "packet:one_document_per_read", "packet:several_documents_per_read", "packet:fraction_of_a_document", "pair:json->yaml", "pair:yaml->json", "pair:msgpack->msgpack", "pair:yaml->yaml", "doc:small", "doc:large", "growth_checked", "yaml_flow_first_document", "yaml_documents_with_directives", "tiny_documents", "yaml_packets_end_in_non_ascii_byte"]
+        vec!["memory_bound_checked", "detected", "explicit", "packet:one_document_per_read", "packet:several_documents_per_read", "packet:fraction_of_a_document", "pair:json->yaml", "pair:yaml->json", "pair:msgpack->msgpack", "pair:yaml->yaml", "doc:small", "doc:large", "growth_checked", "yaml_flow_first_document", "yaml_documents_with_directives", "tiny_documents", "yaml_packets_end_in_non_ascii_byte", "yaml_stream_with_utf8_bom"]
     }
     fn run_unit(&self, unit: &Unit, shard: u32, seed: u64, tier: Tier, rec: &mut Recorder) {
         match unit.name {
